@@ -17,7 +17,10 @@ import (
 	"io"
 	"os"
 	"regexp"
+	"runtime"
 	"sort"
+	"strconv"
+	"sync"
 	"testing"
 	"time"
 
@@ -56,6 +59,7 @@ type Step struct {
 	Key  int    `json:"key,omitempty"`
 	Size int    `json:"size,omitempty"`
 	Val  int    `json:"val,omitempty"`
+	W    int    `json:"w,omitempty"` // flush: which of the two flush goroutines moves
 }
 
 type Case struct {
@@ -78,6 +82,11 @@ func gen(t *rapid.T) Case {
 			s.Val = rapid.IntRange(1, 250).Draw(t, "val")
 		case "setmd":
 			s.Val = rapid.IntRange(1, 250).Draw(t, "val")
+		case "flush":
+			// mostly the first flush goroutine, so that single flushes still get far
+			if rapid.IntRange(0, 3).Draw(t, "w") == 0 {
+				s.W = 1
+			}
 		}
 		c.Steps = append(c.Steps, s)
 	}
@@ -86,8 +95,8 @@ func gen(t *rapid.T) Case {
 
 type pause struct{ point, key string }
 
-type flusherCtl struct {
-	st      *tiered.Store
+// worker is one harness-run flush goroutine.
+type worker struct {
 	arrived chan pause
 	release chan struct{}
 	done    chan struct{}
@@ -95,47 +104,114 @@ type flusherCtl struct {
 	cur     pause
 }
 
-func (f *flusherCtl) yield(point, key string) {
-	f.arrived <- pause{point, key}
-	<-f.release
+// flusherCtl runs up to two flushes at a time, each on its own goroutine that parks at
+// the hook's scheduling points; the case decides which of them moves next.
+type flusherCtl struct {
+	st  *tiered.Store
+	mu  sync.Mutex
+	byG map[uint64]*worker
+	w   [2]*worker
 }
 
-// step advances the flusher by one scheduling point. It returns a description.
-func (f *flusherCtl) step() string {
-	if !f.running {
+func newFlusherCtl(st *tiered.Store) *flusherCtl {
+	f := &flusherCtl{st: st, byG: map[uint64]*worker{}}
+	for i := range f.w {
+		f.w[i] = &worker{arrived: make(chan pause), release: make(chan struct{})}
+	}
+	return f
+}
+
+// gid returns the id of the calling goroutine (to tell the two flush goroutines apart
+// inside the process-wide yield hook).
+func gid() uint64 {
+	var buf [64]byte
+	n := runtime.Stack(buf[:], false)
+	f := bytes.Fields(buf[:n])
+	if len(f) < 2 {
+		return 0
+	}
+	id, _ := strconv.ParseUint(string(f[1]), 10, 64)
+	return id
+}
+
+func (f *flusherCtl) yield(point, key string) {
+	f.mu.Lock()
+	w := f.byG[gid()]
+	f.mu.Unlock()
+	if w == nil {
+		return
+	}
+	w.arrived <- pause{point, key}
+	<-w.release
+}
+
+// step advances flush goroutine i by one scheduling point (starting a flush of the next
+// queued entry if it is not running). It returns a description.
+func (f *flusherCtl) step(i int) string {
+	w := f.w[i]
+	if !w.running {
 		if f.st.VerifQueueLen() == 0 {
 			return "idle"
 		}
-		f.running = true
-		f.done = make(chan struct{})
+		w.running = true
+		w.done = make(chan struct{})
+		ready := make(chan struct{})
 		go func() {
+			g := gid()
+			f.mu.Lock()
+			f.byG[g] = w
+			f.mu.Unlock()
+			close(ready)
 			f.st.VerifFlushNext()
-			close(f.done)
+			f.mu.Lock()
+			delete(f.byG, g)
+			f.mu.Unlock()
+			close(w.done)
 		}()
+		<-ready
 	} else {
-		f.release <- struct{}{}
+		w.release <- struct{}{}
 	}
 	select {
-	case p := <-f.arrived:
-		f.cur = p
+	case p := <-w.arrived:
+		w.cur = p
 		return p.point + "(" + p.key + ")"
-	case <-f.done:
-		f.running = false
-		f.cur = pause{}
+	case <-w.done:
+		w.running = false
+		w.cur = pause{}
 		return "flush-finished"
 	case <-time.After(20 * time.Second):
 		return "STUCK"
 	}
 }
 
+func (f *flusherCtl) anyRunning() bool { return f.w[0].running || f.w[1].running }
+
+// inFlushOf reports whether some flush goroutine is parked inside a flush of key.
+func (f *flusherCtl) inFlushOf(key string) bool {
+	for _, w := range f.w {
+		if w.running && w.cur.key == key {
+			return true
+		}
+	}
+	return false
+}
+
+// quiesce runs both flush goroutines (alternating) until nothing is running or queued.
 func (f *flusherCtl) quiesce() bool {
-	for i := 0; i < 2000; i++ {
-		r := f.step()
+	idle := 0
+	for i := 0; i < 4000; i++ {
+		r := f.step(i % 2)
 		if r == "STUCK" {
 			return false
 		}
 		if r == "idle" {
-			return true
+			idle++
+			if idle >= 2 && !f.anyRunning() {
+				return true
+			}
+		} else {
+			idle = 0
 		}
 	}
 	return false
@@ -163,12 +239,12 @@ func run(c Case) pbt.Verdict {
 		return pbt.Verdict{Discard: true, Classes: []string{"setup-failed"}}
 	}
 	st.VerifStopWorkers()
-	fc := &flusherCtl{st: st, arrived: make(chan pause), release: make(chan struct{})}
+	fc := newFlusherCtl(st)
 	tiered.VerifSetYield(fc.yield)
 	defer func() {
 		// let a parked flusher finish so that no goroutine outlives the case
-		for fc.running {
-			if fc.step() == "STUCK" {
+		for i := 0; fc.anyRunning() && i < 4000; i++ {
+			if fc.step(i%2) == "STUCK" {
 				break
 			}
 		}
@@ -267,7 +343,7 @@ func run(c Case) pbt.Verdict {
 	for si, s := range c.Steps {
 		name := keys[s.Key]
 		b := model[s.Key]
-		duringFlushOfSameKey := fc.running && fc.cur.key == name
+		duringFlushOfSameKey := fc.inFlushOf(name)
 		switch s.Kind {
 		case "flushall":
 			if !fc.quiesce() {
@@ -276,8 +352,14 @@ func run(c Case) pbt.Verdict {
 			note("%d: flusher run to quiescence", si)
 			continue
 		case "flush":
-			r := fc.step()
-			note("%d: flusher -> %s", si, r)
+			r := fc.step(s.W % 2)
+			note("%d: flusher %d -> %s", si, s.W%2, r)
+			if fc.w[0].running && fc.w[1].running {
+				classes["two-flushes-in-flight"] = true
+				if fc.w[0].cur.key == fc.w[1].cur.key {
+					classes["two-flushes-of-one-key-in-flight"] = true
+				}
+			}
 			if r == "STUCK" {
 				return pbt.Verdict{Discard: true, Classes: []string{"flusher-stuck"}}
 			}
@@ -462,9 +544,9 @@ func run(c Case) pbt.Verdict {
 func TestProp(t *testing.T) {
 	pbt.Main(t, pbt.Spec{
 		ID: "C09",
-		Rule: "rapid generates histories over 3 keys on a tiered store (disk capacity 1 MiB so disk never evicts; memory capacity 2-3 blobs): client ops {create+write, complete, set/delete metadata, delete, read, hold (open a handle and read half) / resume (read the rest through the held handle, possibly after the blob left the memory tier), memory pressure (a filler as large as the memory tier is created and deleted)} interleaved with 'advance the flusher to its next scheduling point' steps (and an occasional 'run the flusher to quiescence'); background workers are stopped and the harness runs each flush on a goroutine that parks at 12 lock-free scheduling points (verif hook). Model: key -> absent | incomplete | complete{bytes, metadata}; after every client op and again after quiescence + memory flood: completed blobs are present, read back exactly, and metadata equals the last successful update; blobs created and not yet completed are present and not shown as completed; absent keys are invisible and can be created. non-trivial = a client op on key k executes while the flusher is parked inside a flush of k; distinct by case hash",
+		Rule: "rapid generates histories over 3 keys on a tiered store (disk capacity 1 MiB so disk never evicts; memory capacity 2-3 blobs): client ops {create+write, complete, set/delete metadata, delete, read, hold (open a handle and read half) / resume (read the rest through the held handle, possibly after the blob left the memory tier), memory pressure (a filler as large as the memory tier is created and deleted)} interleaved with 'advance flush goroutine 0|1 to its next scheduling point' steps (and an occasional 'run the flusher to quiescence'); background workers are stopped and the harness runs up to two flushes at a time, each on a goroutine that parks at 13 lock-free scheduling points (verif hook), so a stale flush of a deleted key can overlap the flush of its re-creation. Model: key -> absent | incomplete | complete{bytes, metadata}; after every client op and again after quiescence + memory flood: completed blobs are present, read back exactly, and metadata equals the last successful update; blobs created and not yet completed are present and not shown as completed; absent keys are invisible and can be created. non-trivial = a client op on key k executes while the flusher is parked inside a flush of k; distinct by case hash",
 		Assumptions: []string{
-			"interleavings are owned at the granularity of the hook's scheduling points (all outside critical sections); one flush worker",
+			"interleavings are owned at the granularity of the hook's scheduling points (all outside critical sections); at most two flushes in flight (kraken's default is 10 workers)",
 			"disk never evicts in this configuration, so any disappearance of a completed blob is a loss",
 		},
 		Parts: []pbt.Part{pbt.NewPart("schedule", 1, gen, run)},
